@@ -185,6 +185,15 @@ class XmlTableGen:
             if t[1] == root_row[1]:
                 e1 = b'<' + bytes.fromhex(t[0]) + b'>' + own.replace(b'&', b'&amp;').replace(b'<', b'&lt;') + b'</' + bytes.fromhex(t[0]) + b'>'
                 echo = e1 + e1
+        if rng.random() < 0.2:
+            # a word that occurs twice as a white-space delimited word (the table is built from such words), first
+            # in a text with leading white space, and before that as a mere substring of another text
+            t = rng.choice([r for r in tags if r[1] == root_row[1]] or tags)
+            if t[1] == root_row[1]:
+                w = rng.choice([b'form', b'status', b'repeat', fam[:5], b'table'])
+                tn = bytes.fromhex(t[0])
+                mk = lambda txt: b'<' + tn + b'>' + txt + b'</' + tn + b'>'
+                echo += mk(rng.choice([b'in', b'x', b'']) + w + rng.choice([b'ation', b'ed', b's'])) + mk(rng.choice([b' ', b'\n  ', b'\t']) + w + b' one') + mk(w + rng.choice([b' two', b'', b' ']))
         body += b'>' + echo + b''.join(elt(1, root_row[1]) for _ in range(rng.randint(0, n))) + b'</' + root + b'>'
         return head + body
 
